@@ -55,7 +55,7 @@ def main():
                     v = sp[(w.replace("sqrt_b", "sqrt_b").replace("sqrt_a", "sqrt_a")) + "_" + e] if not w.startswith("nonorthogonal_range_") else sp["nonorthogonal_range_" + e + "_" + w.split("_")[-1]]
                     vals[w][e] = -1 if v is None else int(round(v * 1000))
             out.append({"id": len(out) + 1, "kind": "params", "topo": topo, "region": name, "values": vals, "options": {k: int(round(v * 1000)) for k, v in sent.items()},
-                        "raised": 0, "s": [0], "endg": {"lo": {"req": 0, "got": 0, "tol": 0}, "hi": {"req": 0, "got": 0, "tol": 0}}, "ext_ok": 1})
+                        "raised": 0, "s": [0], "endg": {"lo": {"req": 0, "got": 0, "tol": 0}, "hi": {"req": 0, "got": 0, "tol": 0}}, "ext_ok": 1, "smooth": {"lo": {"req": 0, "got": 0}, "hi": {"req": 0, "got": 0}}})
     # (b) function lattice.  N = 2*ny (contour points of a region), guard cells G at wall ends; the function is used on the
     # indices -2G*[lower is wall] .. N + 2G*[upper is wall], which is also what the code's run-time guard _checkMonotonic scans
     import copy
@@ -67,17 +67,25 @@ def main():
     G = 2
     for L, N, nnf, kinds, pl, pu in itertools.product(Ls, Ns, (1, 4), ("wall.X", "X.wall", "X.X", "wall.wall"), pv, pv):
         N_norm = N * nnf
-        for method in ("sqrt", "monotonic", "linear", "perp"):
+        for method in ("sqrt", "sqrt_free", "monotonic", "linear", "perp"):
+            # "sqrt_free": the wall end has no requested spacing (the default of an orthogonal grid: target_*_poloidal_spacing_length = None), only the
+            # X-point end is constrained (seeded change C10_sqrt_guard_extrap_gradient is in the guard-cell extrapolation of that branch)
+            if method == "sqrt_free" and (kinds not in ("wall.X", "X.wall") or pl != pu):
+                continue
             if method == "perp" and (L != Ls[0] or nnf != 1):
                 continue      # (the contour, and with it the length and N_norm, are those of a real leg: one pass over N, kinds and the spacings)
             rec = {"id": len(out) + 1, "kind": "func", "method": method, "L": L, "N": N, "N_norm": N_norm, "kinds": kinds, "pl": pl, "pu": pu, "topo": "LSN", "region": "core",
                    "values": {w: {"lower": 0, "upper": 0} for w in WHATS}, "options": {"xpoint_poloidal_spacing_length": 0},
-                   "raised": 0, "s": [0], "endg": {"lo": {"req": 0, "got": 0, "tol": 0}, "hi": {"req": 0, "got": 0, "tol": 0}}, "ext_ok": 1}
+                   "raised": 0, "s": [0], "endg": {"lo": {"req": 0, "got": 0, "tol": 0}, "hi": {"req": 0, "got": 0, "tol": 0}}, "ext_ok": 1,
+                   "smooth": {"lo": {"req": 0, "got": 0}, "hi": {"req": 0, "got": 0}}}
             lo_wall, hi_wall = kinds.split(".")[0] == "wall", kinds.split(".")[1] == "wall"
             elo, ehi = (2 * G if lo_wall else 0), (2 * G if hi_wall else 0)
             try:
                 if method == "sqrt":
                     kw = dict(b_lower=pl if lo_wall else 0.0, a_lower=None if lo_wall else pl, b_upper=pu if hi_wall else 0.0, a_upper=None if hi_wall else pu)
+                    f = reg0.getSqrtPoloidalDistanceFunc(L, N, N_norm, **kw)
+                elif method == "sqrt_free":
+                    kw = dict(b_lower=None, a_lower=None, b_upper=0.0, a_upper=pu) if lo_wall else dict(b_lower=0.0, a_lower=pl, b_upper=None, a_upper=None)
                     f = reg0.getSqrtPoloidalDistanceFunc(L, N, N_norm, **kw)
                 elif method == "monotonic":
                     f = reg0.getMonotonicPoloidalDistanceFunc(L, N, N_norm, d_lower=pl, d_upper=pu)
@@ -109,7 +117,22 @@ def main():
                 rec["s"] = [int(np.clip(np.nan_to_num(round(v / L * 1e9), nan=-1e9), -1e9, 2e9)) for v in s]      # 32-bit range of TLC
                 rec["ext_ok"] = 1 if np.all(sall[1:] > sall[:-1]) else 0
                 iN_end = N / N_norm
-                if method == "sqrt":
+                # the extension beyond a wall end (it places the boundary guard cells) continues the function with the same slope: one-sided
+                # differences inside and outside the end, step 1e-7 of the normalised index
+                if method in ("sqrt", "sqrt_free"):
+                    for e, wall, i0 in (("lo", lo_wall, 0.0), ("hi", hi_wall, float(N))):
+                        if wall:
+                            hh = 1e-7 * N_norm      # (at 1e-5 the curvature of the function itself shows at the 0.4 % level)
+                            din = abs(float(f(i0 + (hh if e == "lo" else -hh))) - float(f(i0)))
+                            dout = abs(float(f(i0 - (hh if e == "lo" else -hh))) - float(f(i0)))
+                            rec["smooth"][e] = {"req": 1, "got": int(np.clip(np.nan_to_num(dout / din * 1e6, nan=-1e9), -1e9, 1e9))}
+                if method == "sqrt_free":
+                    a_lo, b_lo = (0.0, 0.0) if lo_wall else (pl, 0.0)
+                    a_hi, b_hi = (0.0, 0.0) if hi_wall else (pu, 0.0)
+                    got_lo = 1.0 if lo_wall else float(f(h * N_norm)) / (2 * a_lo * np.sqrt(h))
+                    got_hi = 1.0 if hi_wall else (L - float(f((iN_end - h) * N_norm))) / (2 * a_hi * np.sqrt(h))
+                    tol = 3000
+                elif method == "sqrt":
                     a_lo, b_lo = (0.0, pl) if lo_wall else (pl, 0.0)
                     a_hi, b_hi = (0.0, pu) if hi_wall else (pu, 0.0)
                     got_lo = float(f(h * N_norm)) / (2 * a_lo * np.sqrt(h) + b_lo * h)
